@@ -78,7 +78,9 @@ void SubDeviceDispatcher::FanOutToSubDevices(
 
   // Fan out to all sub devices but don't include the root device
   if (m_subdevices.empty()) {
-    RunRDMCallback(callback, RDM_WAS_BROADCAST);
+    // There is nothing to fan out to. A unicast request still needs a
+    // response, only broadcasts complete with RDM_WAS_BROADCAST.
+    NackIfNotBroadcast(request, callback, NR_SUB_DEVICE_OUT_OF_RANGE);
   } else {
     SubDeviceMap::iterator iter = m_subdevices.begin();
     FanOutTracker *tracker = new FanOutTracker(m_subdevices.size(), callback);
